@@ -142,13 +142,13 @@ def run(tier):
     nprog = 40 if tier == "quick" else 3000
     pc = []
     for i in range(nprog):
-        g = GP.Gen(random.Random(rng.getrandbits(64)), max_funcs=4)
+        g = GP.Gen(random.Random(rng.getrandbits(64)), level=3, max_funcs=4)
         p = g.program()
         base = GP.source(p, random.Random(i), plain=True)
         pc.append(("q%d" % i, base))
         for k in range(3):
-            q = dict(p); fs = list(p["funcs"]); rng.shuffle(fs); q["funcs"] = fs
-            pc.append(("q%d.%d" % (i, k), GP.source(q, random.Random(i), plain=True)))
+            # all top-level declarations (structures, words, constants, functions) interleaved at random
+            pc.append(("q%d.%d" % (i, k), GP.source(p, random.Random(i), plain=True, shuffle=random.Random(rng.getrandbits(64)))))
     impl2 = C.run_harness("exec", pc, ck.work + "/perm", timeout=1800)
     compared = 0
     for cid, src in pc:
@@ -164,7 +164,7 @@ def run(tier):
         ck.violation("tie-broken:proof", "Props/C11.v no longer checks", getattr(ck, "proof_output", "")[-2000:])
     ck.coverage.update(
         evaluations=len(cases) + len(pc), distinct_nontrivial=len(distinct),
-        rule="random dependency graphs of 2-7 constants and structures (edges through constant expressions, size-of, member types, named array lengths; 35% with back edges), each in two source orders: acyclic must be accepted, cyclic rejected with a cycle code, both orders alike; scoper depths and cycle codes vs Model/Containers.v fed with the edge list in processing order; plus generated programs under 3 random permutations of their functions (same lli output); distinct = distinct graphs",
+        rule="random dependency graphs of 2-7 constants and structures (edges through constant expressions, size-of, member types, named array lengths; 35% with back edges), each in two source orders: acyclic must be accepted, cyclic rejected with a cycle code, both orders alike; scoper depths and cycle codes vs Model/Containers.v fed with the edge list in processing order; plus generated programs (with constants defined from constants, structures, words, functions) under 3 random permutations of ALL their top-level declarations (same verdict and lli output); distinct = distinct graphs",
         graph_stats=dict(stats), problems=mism, permuted_programs=compared,
         samples=[dict(source=cases[0][1], graph=meta[cases[0][0]][1], real=impl.get(cases[0][0], ["?"])[0])])
     ck.assumptions += ["the edge list given to the model is computed by the generator in the order the scoper visits declarations, value expressions, members and array types",
